@@ -520,6 +520,13 @@ func (cm *BasicConnMgr) getConnsToClose() []network.Conn {
 		// lock this to protect from concurrent modifications from connect/disconnect events
 		s := cm.segments.get(inf.id)
 		s.Lock()
+		if inf.firstSeen.After(gracePeriodStart) {
+			// A temporary entry (early tags) that was past the grace period when the
+			// candidates were collected has received its Connected notification since:
+			// its grace period has only just started, leave its connections alone.
+			s.Unlock()
+			continue
+		}
 		if len(inf.conns) == 0 && inf.temp {
 			// handle temporary entries for early tags -- this entry has gone past the grace period
 			// and still holds no connections, so prune it.
